@@ -18,16 +18,21 @@ Proof.
   rewrite nth_error_app1; [rewrite E; exact H|]. apply nth_error_Some. congruence.
 Qed.
 
-Lemma stat_drain_pending fs k : stat fs k = Some Pending -> stat (map drain_fut fs) k = Some Pending.
+Lemma stat_drain_pending fs k :
+  stat fs k = Some Pending ->
+  stat (map drain_fut fs) k = Some Pending \/ stat (map drain_fut fs) k = Some TimedOut.
 Proof.
   unfold stat. rewrite nth_error_map. destruct (nth_error fs k) as [f|]; [|discriminate].
-  simpl. intros H. inversion H as [H1]. unfold drain_fut. rewrite H1. simpl. rewrite H1. reflexivity.
+  simpl. intros H. inversion H as [H1]. unfold drain_fut. rewrite H1.
+  destruct (is_zero (ftmo f)); simpl; rewrite ?H1; auto.
 Qed.
 
 Definition completed (o : option status) : Prop := o = Some Ready \/ o = Some ResNone.
 
 Lemma not_completed_pending : ~ completed (Some Pending).
 Proof. intros [C|C]; discriminate. Qed.
+Lemma not_completed_drain fs k : stat fs k = Some Pending -> ~ completed (stat (map drain_fut fs) k).
+Proof. intros P. destruct (stat_drain_pending _ _ P) as [-> | ->]; intros [C|C]; discriminate. Qed.
 
 Lemma s_put_now_stat kd m x t r t' k :
   s_put_now kd m x t = (r, t') -> stat (sfuts t) k = Some Pending -> ~ completed (stat (sfuts t') k).
@@ -64,7 +69,7 @@ Proof.
         inversion E; subst; simpl in S1; rewrite ?stat_upd in S1; try congruence.
       rewrite P in S1. destruct (k =? n); discriminate.
   - exfalso; revert C. eapply s_put_now_stat; eauto.
-  - exfalso; revert C. destruct (s_get_now kd t) as [r1 t1] eqn:E. pose proof (s_get_now_stat _ _ _ _ _ K J E P) as N.
+  - exfalso; revert C. unfold s_get_op in H. destruct (s_get_now kd t) as [r1 t1] eqn:E. pose proof (s_get_now_stat _ _ _ _ _ K J E P) as N.
     destruct (stat (sfuts t1) k) as [st|] eqn:S1.
     + destruct r1; inversion H; subst; simpl; unfold s_new; rewrite ?(stat_app _ _ _ _ S1), ?S1; exact N.
     + exfalso. unfold s_get_now in E. destruct (sputters t) as [|[x p] ps].
@@ -72,19 +77,29 @@ Proof.
       * destruct (s_put kd x (sq t)); inversion E; subst; simpl in S1; rewrite ?stat_upd in S1; try congruence.
         rewrite P in S1. destruct (k =? p); discriminate.
   - exfalso; revert C. eapply s_get_now_stat; eauto.
+  - exfalso; revert C. unfold s_get_op in H. destruct (s_get_now kd t) as [r1 t1] eqn:E. pose proof (s_get_now_stat _ _ _ _ _ K J E P) as N.
+    destruct (stat (sfuts t1) k) as [st|] eqn:S1.
+    + destruct r1; inversion H; subst; simpl; unfold s_new; rewrite ?(stat_app _ _ _ _ S1), ?S1; exact N.
+    + exfalso. unfold s_get_now in E. destruct (sputters t) as [|[x p] ps].
+      * destruct (sq t); inversion E; subst; simpl in S1; congruence.
+      * destruct (s_put kd x (sq t)); inversion E; subst; simpl in S1; rewrite ?stat_upd in S1; try congruence.
+        rewrite P in S1. destruct (k =? p); discriminate.
   - destruct (sunf t) as [|[|n]] eqn:U; inversion H; subst; simpl in *.
     + exfalso. rewrite P in C. exact (not_completed_pending C).
     + split; reflexivity.
     + exfalso. rewrite P in C. exact (not_completed_pending C).
   - exfalso; revert C. inversion H; subst; simpl. unfold s_new. rewrite (stat_app _ _ _ _ P). apply not_completed_pending.
-  - exfalso; revert C. inversion H; subst; clear H. pose proof (stat_drain_pending _ _ P) as D.
-    destruct (nth_error (map drain_fut (sfuts t)) k0) as [f|]; simpl; [|rewrite D; apply not_completed_pending].
-    destruct (is_pending (fstat f) && ftmo f); simpl; [|rewrite D; apply not_completed_pending].
-    rewrite stat_upd, D. destruct (k =? k0); simpl; intros [X|X]; discriminate.
+  - exfalso; revert C. inversion H; subst; clear H. pose proof (not_completed_drain _ _ P) as D.
+    cbn [sfuts s_drain].
+    destruct (nth_error (map drain_fut (sfuts t)) k0) as [f|]; [|exact D].
+    destruct (is_pending (fstat f) && is_timer (ftmo f)); [|exact D].
+    cbn [sfuts s_finish]. rewrite stat_upd. destruct (k =? k0); [|exact D].
+    change (sfuts (s_drain t)) with (map drain_fut (sfuts t)).
+    destruct (stat (map drain_fut (sfuts t)) k); unfold completed; simpl; intros [X|X]; discriminate X.
   - exfalso; revert C. destruct (stat (sfuts t) k0) as [[]|]; inversion H; subst; simpl;
       rewrite ?stat_upd, P; try apply not_completed_pending;
       destruct (k =? k0); simpl; intros [X|X]; discriminate.
-  - exfalso; revert C. inversion H; subst; simpl. rewrite (stat_drain_pending _ _ P). apply not_completed_pending.
+  - exfalso; revert C. inversion H; subst; simpl. apply not_completed_drain. exact P.
 Qed.
 
 (* on the implementation model, at any operation boundary of any schedule *)
